@@ -259,7 +259,11 @@ func judge(eng *Engine, cfg *Config, ck *CheckCfg, property, tier string, seed i
 		}
 		if reproduced || unrepl {
 			nViol++
-			violLines = append(violLines, fmt.Sprintf("VIOLATION property=%s replay=%s", property, v.Replay))
+			word := "VIOLATION"
+			if property == "SELFTEST" {
+				word = "EXPECTED-FALSE-ASSERTION-FOUND"
+			}
+			violLines = append(violLines, fmt.Sprintf("%s property=%s replay=%s", word, property, v.Replay))
 			violLines = append(violLines, fmt.Sprintf("  harness=%s label=%q kind=%s at=%s picks=%s paths=%d native=%s", v.Entry, v.Label, v.Kind, v.Pos, picksString(v.Picks), len(g), v.Native))
 			if v.Msg != "" && v.Msg != v.Label {
 				violLines = append(violLines, "  "+v.Msg)
@@ -412,7 +416,9 @@ func judge(eng *Engine, cfg *Config, ck *CheckCfg, property, tier string, seed i
 	}
 	os.MkdirAll(filepath.Join(verifDir(), "evidence"), 0o755)
 	b, _ := json.MarshalIndent(ev, "", " ")
-	os.WriteFile(filepath.Join(verifDir(), "evidence", property+".json"), b, 0o644)
+	if property != "SELFTEST" {
+		os.WriteFile(filepath.Join(verifDir(), "evidence", property+".json"), b, 0o644)
+	}
 
 	fmt.Printf("%s %s: %d tasks, %d paths %v, %d queries (sat %d unsat %d unknown %d), solver %.1fs (max %.2fs), %d functions (%d of /repo), %d assertions discharged, validated %d, wall %.1fs -> exit %d\n",
 		property, tier, len(tasks), states, kinds, queries, sat, unsat, unknown, solverS, maxQ, len(fl), repoFns, assertsChecked, validated, wall, exit)
